@@ -294,7 +294,7 @@ func (e *kvElection) verifyLeadershipAfterReconnect() {
 		return
 	}
 
-	verifYield("reconnect.connok")
+	e.verifYield("reconnect.connok")
 	// Verify token is still valid
 	isValid, err := e.validateToken(ctx)
 	if err != nil || !isValid {
